@@ -7,6 +7,11 @@ from framework import Case
 import c02
 
 PROP = 'C11'
+# tools/rs2lean_causable.py regenerates lean/DcVerif/Gen/Causable.lean from the current source of `impl Causable for Causaloid`,
+# the constructors, the default methods of `CausableReasoning` and the aggregates of `CausaloidGraph`;
+# Props/C11Gen.lean proves that the hand model the C11 theorems are about satisfies the generated equations
+TRANSLATORS = ['causable']
+EXTRA_THEOREM_MODULES = ['DcVerif.Props.C11Gen']
 BUILDS = ['safe']
 RULE = ('per case: 1–3 random nesting trees (generator of C02, depth ≤ 3 quick / ≤ 4 thorough) + clones, then a history of 12–40 '
         '(thorough ≤ 120) calls verify_single_cause / verify_all_causes / collection and graph reason_all_causes on random handles '
